@@ -96,6 +96,57 @@ theorem fulltext_line (i : Index) (h : idxOK .fulltext i = true) : closed (pFull
 /-- the head of a key line -/
 theorem toksIndex_head (i : Index) : ∃ r, toksIndex i = kindToks i.kind ++ r := ⟨_, rfl⟩
 
+/-! ### foreign keys -/
+theorem pNameList_ok (ns : List String) (h : segsOK (ns.map fun n => [srcTok n]) = true) (r : List Tok) :
+    pNameList (toksNames ns :: r) = .ok (ns, r) := by
+  unfold pNameList toksNames
+  kw_simp
+  rw [splitBy_sepAll _ h, eachClosed_id popSrc (fun n => [srcTok n]) ns (fun n _ => by simp [popSrc, src_srcTok])]
+
+theorem pFkAction_ok (s : String) (h : actOK (some s) = true) (r : List Tok) : pFkAction (actToks s ++ r) = .ok (s, r) := by
+  simp only [actOK, List.contains_cons, List.contains_nil, Bool.or_false, Bool.or_eq_true, beq_iff_eq] at h
+  rcases h with rfl | rfl | rfl | rfl <;> simp only [actToks, pFkAction] <;> kw_simp
+
+theorem pOptFkAction_some (b : String) (s : String) (h : actOK (some s) = true) (r : List Tok) (hb : up b = b) :
+    pOptFkAction (toksFkAct b (some s) ++ r) "ON" b = .ok (some s, r) := by
+  simp only [toksFkAct, pOptFkAction]
+  kw_simp
+  simp only [hb, beq_self_eq_true, and_self, if_true, pFkAction_ok s h r]
+
+theorem fk_line (k : ForeignKey) (h : fkOK k = true) : closed (pForeignKey (toksFk k)) = .ok k := by
+  obtain ⟨cn, sl, ms, mc, od, ou⟩ := k
+  simp only [fkOK, Bool.and_eq_true] at h
+  obtain ⟨⟨⟨h1, h2⟩, h3⟩, h4⟩ := h
+  simp only [toksFk, pForeignKey]
+  kw_simp
+  simp only [pNameList_ok sl h1]
+  kw_simp
+  simp only [pNameList_ok mc h2]
+  have hD : up "DELETE" = "DELETE" := by decide
+  have hU : up "UPDATE" = "UPDATE" := by decide
+  cases od with
+  | none =>
+    cases ou with
+    | none => simp only [toksFkAct, List.append_nil, pOptFkAction, searchTwoUp, closed]; rfl
+    | some u =>
+      have e1 : pOptFkAction (toksFkAct "DELETE" none ++ toksFkAct "UPDATE" (some u)) "ON" "DELETE" =
+          .ok (none, toksFkAct "UPDATE" (some u)) := by
+        simp only [toksFkAct, List.nil_append, pOptFkAction]; kw_simp
+      have e2 := pOptFkAction_some "UPDATE" u h4 [] hU
+      rw [List.append_nil] at e2
+      simp only [e1, e2, closed]
+  | some dl =>
+    have e1 := pOptFkAction_some "DELETE" dl h3 (toksFkAct "UPDATE" ou) hD
+    cases ou with
+    | none =>
+      have e2 : pOptFkAction (toksFkAct "UPDATE" none) "ON" "UPDATE" = .ok (none, []) := by
+        simp only [toksFkAct, pOptFkAction, searchTwoUp]; rfl
+      simp only [e1, e2, closed]
+    | some u =>
+      have e2 := pOptFkAction_some "UPDATE" u h4 [] hU
+      rw [List.append_nil] at e2
+      simp only [e1, e2, closed]
+
 /-! ### `TBLPROPERTIES` entries -/
 theorem pConfigStrExpr_ok (p : ConfigStr) : pConfigStrExpr (toksProp p) = .ok (p, []) := by
   obtain ⟨a, v⟩ := p
